@@ -141,6 +141,8 @@ func (c *ChangesTable) Open() (sqlite.VirtualCursor, error) {
 	return &ChangesCursor{
 		module:     c.module,
 		t:          c.table,
+		from:       from,
+		to:         to,
 		diffCursor: dc,
 	}, nil
 }
@@ -158,7 +160,9 @@ type ChangesCursor struct {
 	t          *s3db.VirtualTable
 	currentKey *s3db.Key
 	currentRow *v1proto.Row
+	from, to   *s3db.KV
 	diffCursor *kv.DiffCursor
+	started    bool
 	eof        bool
 }
 
@@ -206,6 +210,16 @@ func (c *ChangesCursor) Column(ctx *sqlite.VirtualTableContext, i int) error {
 }
 
 func (c *ChangesCursor) Filter(_ int, idxStr string, values ...sqlite.Value) error {
+	if c.started {
+		// SQLite scans again with the same cursor (inner side of a join,
+		// correlated subquery): every scan gives the whole diff again
+		dc, err := c.to.Root.StartDiff(c.module.sc.ctx, c.from.Root)
+		if err != nil {
+			return toSqlite(err)
+		}
+		c.diffCursor, c.eof, c.currentKey, c.currentRow = dc, false, nil, nil
+	}
+	c.started = true
 	return toSqlite(c.Next())
 }
 func (c *ChangesCursor) Rowid() (int64, error) {
